@@ -271,6 +271,7 @@ func TestVerif_C02_h2recv(t *testing.T) {
 	s := verifh.New(t, "C02", "h2recv",
 		"frame-script peer (x/net/http2 Framer + hpack) on loopback TCP against a real ClientConn: 0..2 (rarely 6) interim HEADERS, final HEADERS (status, fields, repeated names, Content-Length right / too small / too large / duplicated, Trailer announcement, optional CONTINUATION split, END_STREAM on HEADERS), DATA frames in generated sizes, with/without padding, empty, END_STREAM on DATA or on a trailer HEADERS; violations: DATA after END_STREAM, HEADERS after END_STREAM, trailers without END_STREAM, pseudo field in trailers, third HEADERS, DATA on HEAD, 1xx with END_STREAM, missing/non-numeric :status, RST_STREAM mid-body, GET/HEAD; in a third of the cases 1..3 EARLIER exchanges on the same connection (ordinary, header list above the advertised SETTINGS_MAX_HEADER_LIST_SIZE by < 2x, invalid field name / value, reset mid-body) whose outcome must not leak into the response under test; body 0..65537; caller read sizes {1,7,512,4096,65536,random}; compared: status, X-/Content-Type fields, concatenated bytes, final error class, trailers; non-trivial = >=2 DATA frames and non-empty body")
 	r := s.Rand()
+	matrix := map[string]int{}
 	ln, err := net.Listen("tcp", "127.0.0.1:0")
 	if err != nil {
 		t.Fatalf("listen: %v", err)
@@ -359,9 +360,18 @@ func TestVerif_C02_h2recv(t *testing.T) {
 			split = 1 + r.Intn(40)
 		}
 		headEnds := (len(body) == 0 || isHead) && len(trailers) == 0 && r.Intn(2) == 0
+		openNobody := false
 		if !isHead && (status == "204" || status == "304") && r.Intn(3) == 0 && pick > 8 {
-			// a 304 may carry the Content-Length of the representation (RFC 9110 8.6)
-			headEnds, trailers = true, nil
+			// a 304 may carry the Content-Length of the representation (RFC 9110 8.6);
+			// round 5: END_STREAM on the HEADERS frame, or - the stream left open by the
+			// HEADERS - on an empty DATA frame or on the trailer HEADERS (what Go's h2 server
+			// sends when the handler announced trailers)
+			if r.Intn(2) == 0 {
+				headEnds, trailers = true, nil
+			} else {
+				headEnds = false
+				openNobody = true
+			}
 			if !declared {
 				declared = true
 				clv = 1 + r.Intn(5000)
@@ -601,10 +611,13 @@ func TestVerif_C02_h2recv(t *testing.T) {
 				if !strings.HasPrefix(body, string(data)) {
 					propOK = false
 				}
-				if mut == "cl-small" && last == io.EOF && len(data) > clv {
+				// a Content-Length on a status that never has a body announces none (finding
+				// C02-3): the two length rules are about statuses that may have one
+				nobody := status == "204" || status == "304"
+				if mut == "cl-small" && last == io.EOF && len(data) > clv && !nobody {
 					propOK = false
 				}
-				if mut == "cl-large" && last == io.EOF && !isHead && !headEnds {
+				if mut == "cl-large" && last == io.EOF && !isHead && !headEnds && !nobody {
 					propOK = false // shorter than declared must not end cleanly
 				}
 			})
@@ -656,7 +669,34 @@ func TestVerif_C02_h2recv(t *testing.T) {
 		if isHead {
 			s.Count("HEAD")
 		}
+		// round 5: the matrix declared length {none, right, body longer (surplus), body shorter}
+		// x trailer section {no, yes}; every cell must be reached
+		if !isHead && !headEnds && (mut == "none" || mut == "cl-small" || mut == "cl-large") {
+			k := "undeclared"
+			switch {
+			case mut == "cl-small":
+				k = "surplus"
+			case mut == "cl-large":
+				k = "short"
+			case declared:
+				k = "declared"
+			}
+			k = "matrix:" + k + "/trailers=" + strconv.FormatBool(len(trailers) > 0)
+			s.Count(k)
+			matrix[k]++
+		}
 		class := ""
+		if openNobody && mut == "nobody-status-cl" {
+			s.Count("204/304+content-length+open-stream+no-data")
+		}
+		if !isHead && !headEnds && (status == "204" || status == "304") && declared && !strings.HasSuffix(mut, "dup") {
+			// finding C02-3: the length accounting of transportResponseBody.Read applied to a
+			// status that never has a body: END_STREAM before "Content-Length" bytes arrived
+			// is reported as io.ErrUnexpectedEOF (and DATA a misbehaving origin sends on such a
+			// status is measured against the Content-Length)
+			class = "h2-nobody-status-length-accounting"
+			s.Count("204/304+content-length+open-stream")
+		}
 		if !isHead && headEnds && (status == "204" || status == "304") && declared && clv > 0 && !strings.HasSuffix(mut, "dup") {
 			// finding C02-1 (see e2eh2): missingBody for a 204/304 that carries a Content-Length
 			class = "h2-nobody-status-content-length"
@@ -665,46 +705,152 @@ func TestVerif_C02_h2recv(t *testing.T) {
 		s.Case(line, impl, propOK, class, ndata >= 2 && len(body) > 0, human)
 	}
 	s.Finish()
+	if stalls < 4 {
+		for _, l := range []string{"undeclared", "declared", "surplus", "short"} {
+			for _, tr := range []string{"false", "true"} {
+				rare := (l == "surplus" || l == "short") && tr == "true" // a handful per quick run: required in the thorough tier only
+			if k := "matrix:" + l + "/trailers=" + tr; matrix[k] == 0 && (!rare || verifh.Thorough()) {
+					t.Errorf("lane h2recv never reached %q", k)
+				}
+			}
+		}
+	}
 }
 
-// TestVerif_C02_h2databuf: dataBuffer (chunk list from size-class pools) behaves as the flat
-// FIFO the pipe model uses: every Read returns min(len(p), buffered) bytes, in order.
+// c02PatByte: position-dependent test data, the byte at stream offset i (same formula as the
+// Lean driver's patByte).
+func c02PatByte(salt, i int) byte { return byte((i*131 + (i/251)*17 + salt) % 256) }
+
+func c02HashBytes(p []byte) int {
+	h := 7
+	for _, b := range p {
+		h = (h*31 + int(b) + 1) % 1000000007
+	}
+	return h
+}
+
+// c02GoChunkSize: which size class the NEXT chunk comes from (generator only: it lets the
+// script aim reads and writes at the chunk geometry; the judge is the Lean model).
+func c02GoChunkSize(want int64) int {
+	switch {
+	case want <= 1<<10:
+		return 1 << 10
+	case want <= 2<<10:
+		return 2 << 10
+	case want <= 4<<10:
+		return 4 << 10
+	case want <= 8<<10:
+		return 8 << 10
+	}
+	return 16 << 10
+}
+
+// TestVerif_C02_h2databuf: the real dataBuffer (chunk list from size-class pools, r/w cursors)
+// against the Lean model Req.C02.DataBuffer, op by op, content-checked; an independent byte FIFO
+// is the second opinion (theorem databuffer_fifo says the model IS that FIFO).
 func TestVerif_C02_h2databuf(t *testing.T) {
 	s := verifh.New(t, "C02", "h2databuf",
-		"random Write(n)/Read(k) sequences on a real dataBuffer with expected in {-1,0,small,exact,large}: write sizes 0..40000 around the 1/2/4/8/16 KiB chunk classes, read sizes 1..70000; oracle: an independent byte FIFO; non-trivial = data crossed a chunk boundary")
+		"Write(n)/Read(k) scripts on a real dataBuffer with expected in {-1,0,1,1000,5000,20000,100000}, position-dependent bytes: write sizes 0..40000 around the 1/2/4/8/16 KiB chunk classes or aimed at the geometry (fill the last chunk exactly / +-1); read sizes random 1..70000 or aimed at the geometry (what is left of the first chunk +-1, the offset in the first chunk that equals the write offset of the last chunk +-1, everything, everything-1); compared op by op (read length + content hash, Len() after every op) with Req.C02.DataBuffer under Go's size-class allocator (the chunk lengths at the end are recorded in the histogram, not judged: the allocation policy is invisible to the caller); oracle: an independent byte FIFO; non-trivial = at least two chunks were buffered at once")
 	r := s.Rand()
-	n := verifh.N(400, 20000)
+	n := verifh.N(500, 20000)
 	sizes := []int{0, 1, 2, 100, 1023, 1024, 1025, 2047, 2048, 2049, 4095, 4096, 4097, 8191, 8192, 8193, 16383, 16384, 16385, 40000}
 	stalls := 0
+	reached := map[string]int{}
+	count := func(k string) { s.Count(k); reached[k]++ }
 	for c := 0; c < n && stalls < 3; c++ {
 		exp := int64(verifh.Pick(r, []int{-1, 0, 1, 1000, 5000, 20000, 100000}))
-		// the op script is drawn first; the run happens in a goroutine so that a Read that
-		// never returns fails the case instead of hanging the lane
+		salt := r.Intn(256)
 		type op struct {
 			write bool
 			k     int
-			p     []byte
 		}
 		var ops []op
-		pending := 0
+		// generator-side shadow of the geometry (chunk lengths, r, w, expected)
+		var lens []int
+		sr, sw, pending := 0, 0, 0
+		sexp := exp
+		multi, aimed := false, false
+		shadowWrite := func(k int) {
+			for k > 0 {
+				if len(lens) == 0 || sw >= lens[len(lens)-1] {
+					want := int64(k)
+					if sexp > want {
+						want = sexp
+					}
+					lens = append(lens, c02GoChunkSize(want))
+					sw = 0
+				}
+				m := lens[len(lens)-1] - sw
+				if m > k {
+					m = k
+				}
+				sw += m
+				k -= m
+				pending += m
+				sexp -= int64(m)
+			}
+		}
+		shadowRead := func(k int) {
+			for k > 0 && pending > 0 {
+				avail := lens[0] - sr
+				if len(lens) == 1 {
+					avail = sw - sr
+				}
+				m := avail
+				if m > k {
+					m = k
+				}
+				sr += m
+				k -= m
+				pending -= m
+				if sr == lens[0] {
+					lens = lens[1:]
+					sr = 0
+				}
+			}
+		}
 		for i := 0; i < 3+r.Intn(30); i++ {
 			if r.Intn(2) == 0 || pending == 0 {
 				k := verifh.Pick(r, sizes)
-				if r.Intn(3) == 0 {
+				switch r.Intn(4) {
+				case 0:
 					k = r.Intn(3000)
+				case 1:
+					if len(lens) > 0 && lens[len(lens)-1] > sw { // aim at the end of the last chunk
+						k = lens[len(lens)-1] - sw + r.Intn(3) - 1
+						if r.Intn(2) == 0 {
+							k += 1 + r.Intn(300) // spill a little into a new chunk
+						}
+					}
 				}
-				ops = append(ops, op{write: true, k: k, p: []byte(verifh.RandBytes(r, k, ""))})
-				pending += k
+				if k < 0 {
+					k = 0
+				}
+				ops = append(ops, op{write: true, k: k})
+				shadowWrite(k)
 			} else {
 				k := 1 + r.Intn(70000)
-				if r.Intn(2) == 0 {
+				switch r.Intn(5) {
+				case 0:
 					k = 1 + r.Intn(2000)
+				case 1: // what is left of the first chunk, +-1
+					k = lens[0] - sr + r.Intn(3) - 1
+				case 2: // stop in the first chunk where the last chunk's write offset is, +-1
+					if len(lens) >= 2 && sw > sr {
+						k = sw - sr + r.Intn(3) - 1
+						aimed = true
+					}
+				case 3:
+					k = pending - r.Intn(2)
+				}
+				if k < 1 {
+					k = 1
 				}
 				ops = append(ops, op{k: k})
-				if k > pending {
-					k = pending
-				}
-				pending -= k
+				shadowRead(k)
+			}
+			if len(lens) >= 2 {
+				multi = true
 			}
 		}
 		var trace []string
@@ -715,36 +861,52 @@ func TestVerif_C02_h2databuf(t *testing.T) {
 				trace = append(trace, "r"+strconv.Itoa(o.k))
 			}
 		}
-		type outT struct{ ok, crossed bool }
+		type outT struct {
+			ok   bool
+			obs  []string
+			geo  string
+			seen bool
+		}
 		outc := make(chan outT, 1)
 		go func() {
-			// the "expected" hint is the struct's only int64 field (set by type, not by name)
+			// the "expected" hint is the struct's only int64 field, the chunk list its only
+			// [][]byte field (found by type, not by name)
 			b := new(dataBuffer)
 			bv := reflect.ValueOf(b).Elem()
-			nInt64 := 0
+			nInt64, chunksIdx, nChunks := 0, -1, 0
 			for i := 0; i < bv.NumField(); i++ {
 				if bv.Field(i).Kind() == reflect.Int64 {
 					nInt64++
 					reflect.NewAt(bv.Field(i).Type(), unsafe.Pointer(bv.Field(i).UnsafeAddr())).Elem().SetInt(exp)
 				}
+				if bv.Field(i).Type() == reflect.TypeOf([][]byte(nil)) {
+					chunksIdx = i
+					nChunks++
+				}
 			}
 			if nInt64 != 1 {
 				b = new(dataBuffer) // shape changed: run without the hint
+				bv = reflect.ValueOf(b).Elem()
 			}
-			written := 0
 			var fifo []byte
-			ok, crossed := true, false
+			var obs []string
+			ok := true
+			off := 0
 			for _, o := range ops {
-				if !ok {
-					break
-				}
+				var ob string
 				if o.write {
-					m, err := b.Write(o.p)
+					p := make([]byte, o.k)
+					for j := range p {
+						p[j] = c02PatByte(salt, off+j)
+					}
+					off += o.k
+					m, err := b.Write(p)
+					ob = "w"
 					if m != o.k || err != nil {
 						ok = false
+						ob = "w!"
 					}
-					fifo = append(fifo, o.p...)
-					written += o.k
+					fifo = append(fifo, p...)
 				} else {
 					p := make([]byte, o.k)
 					m, err := b.Read(p)
@@ -752,37 +914,97 @@ func TestVerif_C02_h2databuf(t *testing.T) {
 					if want > len(fifo) {
 						want = len(fifo)
 					}
-					if want == 0 {
-						// reading an empty buffer is an error by contract (errReadEmpty)
-						if m != 0 {
+					if err != nil {
+						ob = "e" // errReadEmpty is the only error Read has
+						if want != 0 || m != 0 {
 							ok = false
 						}
-						continue
+					} else {
+						if m < 0 || m > len(p) {
+							m = 0
+							ok = false
+						}
+						ob = strconv.Itoa(m) + ":" + strconv.Itoa(c02HashBytes(p[:m]))
+						if want == 0 || m != want || !bytes.Equal(p[:m], fifo[:want]) {
+							ok = false
+						}
+						fifo = fifo[want:]
 					}
-					if err != nil || m != want || !bytes.Equal(p[:m], fifo[:want]) {
-						ok = false
-					}
-					fifo = fifo[want:]
 				}
 				if b.Len() != len(fifo) {
 					ok = false
 				}
-				if written > 16<<10 {
-					crossed = true // more than the largest chunk class: the data spans chunks
+				obs = append(obs, ob+"/"+strconv.Itoa(b.Len()))
+			}
+			geo, seen := "?", false
+			if nChunks == 1 {
+				seen = true
+				cv := bv.Field(chunksIdx)
+				var ls []string
+				for i := 0; i < cv.Len(); i++ {
+					ls = append(ls, strconv.Itoa(cv.Index(i).Len()))
+				}
+				geo = "-"
+				if len(ls) > 0 {
+					geo = strings.Join(ls, ",")
 				}
 			}
-			outc <- outT{ok, crossed}
+			outc <- outT{ok, obs, geo, seen}
 		}()
-		var ok, crossed bool
+		var res outT
+		stalled := false
 		select {
-		case o := <-outc:
-			ok, crossed = o.ok, o.crossed
+		case res = <-outc:
 		case <-time.After(10 * time.Second):
-			ok = false
+			stalled = true
 			stalls++
 		}
-		s.Count(fmt.Sprintf("expected:%d", exp))
-		s.Observe(fmt.Sprintf("databuf#%d exp=%d %s", c, exp, strings.Join(trace, ",")), ok, "", crossed, fmt.Sprintf("exp=%d ops=%s", exp, strings.Join(trace, ",")), "dataBuffer diverged from FIFO")
+		count(fmt.Sprintf("expected:%d", exp))
+		human := fmt.Sprintf("exp=%d salt=%d ops=%s", exp, salt, strings.Join(trace, ","))
+		if stalled {
+			s.Observe(fmt.Sprintf("databuf#%d %s", c, human), false, "", multi, human, "dataBuffer op did not return within 10 s")
+			continue
+		}
+		if multi {
+			count(">=2-chunks-buffered")
+		}
+		if aimed {
+			count("read-stops-at-r==w-of-last-chunk")
+		}
+		// The chunk geometry is NOT part of the compared answer: which size class a chunk
+		// comes from is invisible to the caller (theorem databuffer_alloc_invisible), so a
+		// different allocation policy must not alarm. It is only recorded whether the real
+		// chunk list has the lengths Go's size classes (the model's goAlloc) predict.
+		g := "0"
+		if res.seen {
+			var ls []string
+			for _, l := range lens {
+				ls = append(ls, strconv.Itoa(l))
+			}
+			pred := "-"
+			if len(ls) > 0 {
+				pred = strings.Join(ls, ",")
+			}
+			if pred == res.geo {
+				count("geometry:as-size-classes-predict")
+			} else {
+				count("geometry:differs-from-size-classes")
+			}
+		}
+		res.geo = "?"
+		opsS := "-"
+		if len(trace) > 0 {
+			opsS = strings.Join(trace, ",")
+		}
+		impl := "obs=" + strings.Join(res.obs, ";") + " geo=" + res.geo
+		s.Case(fmt.Sprintf("c02databuf %d %d %s %s", exp, salt, g, opsS), impl, res.ok, "", multi, human)
 	}
 	s.Finish()
+	if stalls == 0 {
+		for _, k := range []string{">=2-chunks-buffered", "read-stops-at-r==w-of-last-chunk"} {
+			if reached[k] == 0 {
+				t.Errorf("lane h2databuf never reached %q", k)
+			}
+		}
+	}
 }
